@@ -7,17 +7,19 @@ use crate::gen::ModelData;
 use std::collections::BTreeMap;
 use vaporetto::{CharacterBoundary, Model, Predictor, Sentence, SolverType, Trainer};
 
-const CORPORA: [&[&str]; 3] = [
+const CORPORA: [&[&str]; 4] = [
     &["人/名詞/ヒト が/助詞/ガ 行っ/動詞/イッ た/助動詞/タ", "会/名詞/カイ を/助詞/ヲ 行っ/動詞/オコナッ た/助動詞/タ", "二 人/接尾辞/ニン で/助詞/デ 行っ/動詞/イッ た/助動詞/タ",
       "人/名詞/ジン と/助詞/ト 人/名詞/ヒト", "行っ/動詞/イッ て/助詞/テ 行っ/動詞/オコナッ た/助動詞/タ"],
     // absent tags in the middle, different numbers of tags per sentence, a token seen with and without tags
     &["a/X b//B1 c/Z/C1", "a/Y b//B2 c", "a/X/A1 b c/Z", "d e f"],
     // one category only, every token a single tag except one
     &["火星/名詞 猫/名詞 だ/助動詞", "猫/動物 が/助詞 鳴く/動詞"],
+    // the FIRST sentence has fewer tag categories than later ones with the same tokens; the richest comes in the middle
+    &["猫/名詞 が/助詞 鳴く/動詞", "猫/名詞/ネコ が/助詞/ガ 鳴く/動詞/ナク", "猫/動物/ネコ/cat が 鳴く/動詞/ナク/cry", "犬/名詞/イヌ が 鳴く"],
 ];
 const TAG_DICT: &str = "犬/名詞/イヌ 人/代名詞/ヒト z//Z2 y";
 // (char window, char n-gram, type window, type n-gram)
-const CONFIGS: [(u8, u8, u8, u8); 6] = [(1, 1, 1, 1), (2, 2, 2, 2), (3, 3, 3, 3), (1, 3, 2, 1), (3, 1, 1, 3), (2, 3, 3, 2)];
+const CONFIGS: [(u8, u8, u8, u8); 9] = [(1, 1, 1, 1), (2, 2, 2, 2), (3, 3, 3, 3), (1, 3, 2, 1), (3, 1, 1, 3), (2, 3, 3, 2), (0, 1, 1, 1), (1, 1, 0, 2), (0, 2, 0, 1)];
 
 thread_local! { static TRAINED: std::cell::Cell<usize> = std::cell::Cell::new(0); }
 
